@@ -47,3 +47,4 @@ def build(E, tier):
     cm.verify_public_store(E)
     cm.verify_public_fetch(E)
     cm.verify_public_fetch_many(E)
+    cm.verify_set_many(E)
